@@ -15,8 +15,19 @@ EXPLANATION = ("Decides structural clauses of C18, not the behaviour: in PlainSe
 ASSUMPTIONS = ["checksum::simple and AeadAlgorithm::decrypt_in_place do what their names say"]
 
 
+def structural_equality(ctx, P):
+    """The conflict check compares session keys with `!=`: that comparison must be the derived, structural one (a hand-written
+    eq that e.g. ignores lengths would make conflicting keys compare equal)."""
+    for ty in ('composed::message::decrypt::PlainSessionKey', 'composed::message::decrypt::RawSessionKey'):
+        impls = [i for i in ctx.f.impls if i.get('self_adt') == ty and i.get('trait') == 'std::cmp::PartialEq']
+        ok = bool(impls) and all(i.get('derived') for i in impls)
+        ctx.check('%s:ring:derived-eq:%s' % (P, ty.split('::')[-1]), 'R-who', 'PartialEq of %s is the derived structural comparison' % ty.split('::')[-1], ok,
+                  missing=None if ok else 'hand-written PartialEq: the session-key conflict check no longer compares whole keys', count=len(impls))
+
+
 def run(ctx):
     P = 'C18'
+    structural_equality(ctx, P)
     plain_decrypt(ctx, P)
     skesk_decrypt(ctx, P)
     ring(ctx, P)
